@@ -118,7 +118,7 @@ func sharedPropertyTouched(c *u.Case, p result.Patch) bool {
 	for _, up := range p.PackageUpdates {
 		prop := ""
 		for _, q := range c.Manifest {
-			if u.FullName(c.Eco, q.Name) == up.Name {
+			if c.Full(q.Name) == up.Name {
 				prop = q.Prop
 			}
 		}
@@ -126,7 +126,7 @@ func sharedPropertyTouched(c *u.Case, p result.Patch) bool {
 			continue
 		}
 		for _, q := range c.Manifest {
-			if q.Prop == prop && u.FullName(c.Eco, q.Name) != up.Name {
+			if q.Prop == prop && c.Full(q.Name) != up.Name {
 				return true
 			}
 		}
